@@ -6,7 +6,7 @@ CONSTANTS
   MaxScopeDepth = 1
   MaxStack = 2
   BindVals <- RefBindVals
-  MaxBindings = 3
+  MaxBindings = 2
   Enabled = {"Bind", "EnterScope", "ExitScope"}
   NameOrder <- NamesRefs
   HookUniverse = {}
